@@ -251,13 +251,23 @@ def run_C07(em, impl, tabs, rng, thorough):
         if f != want or f[1] >> 2 != 0:
             em.violation("C07: serialize() is not 0xD3 + 16-bit length + payload + CRC-24Q", {"payload": p.hex()}, {"got": f.hex(), "want": want.hex()})
             continue
+        for v in (1, 0):
+            for lab in (1, 2):
+                try:
+                    m2 = RTCMReader.parse(f, validate=v, labelmsm=lab)
+                    ok = m2.payload == p and m2.identity == m.identity and m2.serialize() == f and (lab != 1 or gen.public_attrs(m2) == gen.public_attrs(m))
+                except Exception as e:  # noqa
+                    ok = False
+                if not ok:
+                    em.violation("C07: parse(serialize(m), validate=%d, labelmsm=%d) does not give back payload / identity / attributes / frame" % (v, lab), {"payload": p.hex(), "frame": f.hex()}, {})
         try:
-            m2 = RTCMReader.parse(f)
-            ok = m2.payload == p and m2.identity == m.identity and gen.public_attrs(m2) == gen.public_attrs(m) and m2.serialize() == f
+            import io as _io
+            got = list(RTCMReader(_io.BytesIO(f + f), validate=0))
+            ok = [r for r, _ in got] == [f, f] and all(mm.payload == p and mm.serialize() == f for _, mm in got)
         except Exception as e:  # noqa
             ok = False
         if not ok:
-            em.violation("C07: parse(serialize(m)) differs from m", {"payload": p.hex()}, {})
+            em.violation("C07: stream reader round trip of serialize(m) differs", {"payload": p.hex()}, {})
         try:
             m3 = eval(repr(m))  # noqa: S307
             ok = m3.payload == p
@@ -390,7 +400,12 @@ def run_C14(em, impl, tabs, rng, thorough):
         add_case(em, impl, p, 1, FULL, "message later subjected to attribute assignment")
         if tag != 0:
             continue
-        snap = (dict(m.__dict__), str(m), m.serialize(), m.identity, m.payload, repr(m))
+        def snapshot():
+            try:
+                return (dict(m.__dict__), str(m), m.serialize(), m.identity, m.payload, repr(m))
+            except Exception as e:  # noqa
+                return ("snapshot raised", repr(e))
+        snap = snapshot()
         names = list(m.__dict__) + ["new_attribute", "_private_new", "identity", "payload", "DF002", "_payload", "_immutable"]
         for nme in names:
             for val in (1, "x", None, False):
@@ -402,7 +417,7 @@ def run_C14(em, impl, tabs, rng, thorough):
                     pass
                 except Exception as e:  # noqa
                     em.violation("C14: assignment to %s raised %r instead of the message error" % (nme, e), {"payload": p.hex(), "name": nme}, {})
-        if snap != (dict(m.__dict__), str(m), m.serialize(), m.identity, m.payload, repr(m)):
+        if snap != snapshot():
             em.violation("C14: message changed after rejected assignments", {"payload": p.hex()}, {})
     em.samples = [{"payload": pays[0].hex()[:80], "assigned_names": "all of __dict__ + new/private/property names"}]
 
